@@ -146,8 +146,11 @@ def run(ctx):
         for ln in ("h", "z", "t", "j", "hh", "l", "ll", ""):
             for conv in ("d", "i", "u", "o", "x", "X"):
                 for v in range(5):
-                    for fl, w, pr in ((nofl, "", ""), (dict(nofl, minus=True), "9", ""), (dict(nofl, zero=True), "9", ""),
-                                      (dict(nofl, hash=True), "", ".3"), (dict(nofl, plus=True), "*", "")):
+                    # (widths and precisions with the digits 9 and 0 in both positions: a mutation-campaign survivor
+                    # stopped the digit loop at '8')
+                    for fl, w, pr in ((nofl, "", ""), (dict(nofl, minus=True), "9", ""), (dict(nofl, zero=True), "19", ""),
+                                      (dict(nofl, hash=True), "", ".3"), (dict(nofl, plus=True), "*", ""),
+                                      (nofl, "10", ".9"), (nofl, "90", ".19"), (dict(nofl, minus=True), "29", ".10")):
                         if fl["hash"] and conv not in ("o", "x", "X"):
                             continue      # ISO C leaves # undefined for d, i, u
                         cases.append(make_case({"flags": fl, "conv": conv, "len": ln, "val": v, "width": w, "prec": pr}))
